@@ -223,6 +223,14 @@ pub fn spawn_broker<R: Responder>(wire: Wire, cfg: ServerCfg, r: R) -> BrokerHan
                 };
                 if let Some(out) = out {
                     let frames = dec.feed_from(&out, pos0);
+                    if dec.error.is_some() && !io.closing {
+                        // the client sent something that is not a frame: a real broker drops the
+                        // connection; doing the same releases every blocked caller quickly (the
+                        // check's oracle on the outbound log reports what was wrong)
+                        io.closing = true;
+                        ctl2.lock().unwrap().handshake_error = dec.error.clone();
+                        wire.push_eof();
+                    }
                     if phase == 0 && dec.saw_header() {
                         send_chunked(
                             &mut io,
